@@ -32,6 +32,7 @@
 # external _imports
 import torch
 import numpy as np
+from ..base.base_funcs import _interp_rows
 
 # meta infos
 __author__ = "Richard Gast"
@@ -42,14 +43,21 @@ __status__ = "development"
 
 sigmoid = lambda x: 1./(1. + np.exp(-x))
 
+# linear interpolation with the semantics of numpy.interp (end values outside the grid)
 interp = """
 def interp(x_new, x, y):
-    idx = argmin(abs(x-x_new))
-    if abs(x[idx]) > abs(x_new):
-        i1, i2 = idx-1, idx
-    else:
-        i1, i2 = idx, idx+1
-    return (y[i1] + y[i1])*0.5
+    i2 = clamp(searchsorted(x, x_new, right=True), 1, x.shape[0]-1)
+    i1 = i2 - 1
+    w = clamp((x_new - x[i1]) / (x[i2] - x[i1]), 0.0, 1.0)
+    return y[i1] + w*(y[i2] - y[i1])
+"""
+
+interp_rows = """
+def interp_rows(t, time, inp):
+    i2 = clamp(searchsorted(time, t, right=True), 1, time.shape[0]-1)
+    i1 = i2 - 1
+    w = clamp((t - time[i1]) / (time[i2] - time[i1]), 0.0, 1.0)
+    return inp[i1] + w*(inp[i2] - inp[i1])
 """
 
 # Weighted sum: einsum-based, identical algebra to base_funcs.wsum but using
@@ -84,7 +92,9 @@ torch_funcs = {
     'tan': {'call': 'tan', 'func': np.tan, 'imports': ['torch.tan']},
     'exp': {'call': 'exp', 'func': np.exp, 'imports': ['torch.exp']},
     'sigmoid': {'call': 'sigmoid', 'func': sigmoid, 'imports': ['torch.sigmoid']},
-    'interp': {'call': 'interp', 'func': np.interp, 'def': interp, 'imports': ['torch.abs', 'torch.argmin']},
+    'interp': {'call': 'interp', 'func': np.interp, 'def': interp, 'imports': ['torch.clamp', 'torch.searchsorted']},
+    'interp_rows': {'call': 'interp_rows', 'func': _interp_rows, 'def': interp_rows,
+                    'imports': ['torch.clamp', 'torch.searchsorted']},
     'wsum':   {'call': 'wsum',   'def': wsum, 'imports': ['torch.einsum']},
     'real': {'call': 'real', 'func': np.real, 'imports': ['torch.real']},
     'imag': {'call': 'imag', 'func': np.imag, 'imports': ['torch.imag']},
